@@ -300,9 +300,10 @@ func (b *Batcher) trySendBatchAndUnlock(batch *Batch) {
 	batch.seq = b.outSeq
 	b.outSeq++
 	b.batch = nil
-	b.mu.Unlock()
-
+	// send under the lock: Stop closes fullBatches under the same lock, and the
+	// channel has room for every batch, so this never blocks.
 	b.fullBatches <- batch
+	b.mu.Unlock()
 }
 
 func (b *Batcher) getBatch() *Batch {
